@@ -110,6 +110,7 @@ v('c13-quote-order', 'C13', 'C13/domain-order', '"""', ('rogw/tranp/implements/s
 
 v('c08-f17-reverted', 'C08', 'C08/template-name-substitution-anchored', 'list_sort', ('data/cpp/template/func_call/list_sort.j2', "reg_replace('\\\\b' ~ entry_name ~ '\\\\b', 'a', entry_value)", "entry_value | replace(entry_name, 'a')"))
 v('c08-f18-reverted', 'C08', 'C08/template-prefix-tests-anchored', 'Iterator', ('data/cpp/template/function/_method_body.j2', "{%- elif return_type.startswith('Iterator<') %}", "{%- elif return_type.startswith('Iterator') %}"))
+v('c04-f23-reverted', 'C04', 'C04/load-unload-pairing', 'rollback', ('rogw/tranp/module/modules.py', "				self.unload(module_path)\n				raise\n", "				raise\n"))
 # ---- C14 / C15 ----
 v('c14-key-renamed', 'C14', 'C14/record-keys-agree', 'Reflection', ('rogw/tranp/semantics/reflection/serializer.py', "				'origin': symbol.types.fullyname,", "				'org': symbol.types.fullyname,"))
 v('c14-via-from-origin', 'C14', 'C14/field-wiring', 'Options.via', ('rogw/tranp/semantics/reflection/serializer.py', "via = db[data['via']] if data['origin'] != data['via'] else None", "via = db[data['origin']] if data['origin'] != data['via'] else None"))
